@@ -434,7 +434,7 @@ V({
 # --------------------------------------------------------------------------- V9
 V({
     "id": "V9",
-    "title": "lifetime_variance: Unifier::{relate_lifetime_lifetime, push_lifetime_outlives_goals, unify_lifetime_var, relate_alias_ty, generalize_lifetime, generalize_const}, Variance::{xform, invert}, UniverseIndex::{can_see, root}",
+    "title": "lifetime_variance: Unifier::{relate_lifetime_lifetime, push_lifetime_outlives_goals, unify_lifetime_var, relate_alias_ty, generalize_lifetime, generalize_const}, Lifetime::inference_var, Variance::{xform, invert}, UniverseIndex::{can_see, root}",
     "template": "v9_lifetime_variance.rs",
     "assumptions": [
         "V9: ena: unify_var_var on two unbound variables and unify_var_value on an unbound variable cannot fail and have the stated effect on the table view; universe_of_unbound_var reads the table",
@@ -442,6 +442,7 @@ V({
         "V9: relate_ty_ty is havoc: its outcome is an uninterpreted function of the unifier's state and its arguments (so relate_alias_ty's contract pins down the call it makes); InferenceTable::new_variable returns ena's next free variable, unknown to the table so far; AliasEq::cast / EnaVariable::to_ty are constructors",
         "V9: relate_lifetime_lifetime is verified on its extracted text after the mechanical edit D4 (its reference patterns `(&P, &Q)` become `(P, Q)` over the dereferenced scrutinee, LifetimeData being Copy; logged per run under `dropped`); precondition (callers' obligation, the code panics otherwise): neither normalized lifetime is a bound variable or Phantom",
         "V9: InferenceTable::normalize_lifetime_shallow returns an uninterpreted function of the table (`spec_normalize`), leaves the table view alone and does not change what any lifetime normalizes to (ena path compression); two lifetimes that are both 'static (or both erased) need no requirement whether or not their interned handles are equal",
+        "V9: Lifetime::inference_var (chalk-ir, neighbourhood API) is extracted and proved: Some(v) iff the lifetime's data is InferenceVar(v)",
         "V9: the Ref/Dyn arms of relate_ty_ty are NOT verified (havoc); the composite reference rule is a lemma over relate_lifetime_lifetime's contract + xform",
     ],
     "trusted": ["ena", "chalk-ir casts"],
@@ -684,6 +685,7 @@ V({
     "assumptions": [
         "V29: last_field_of_struct (closures over binders) and needs_impl_for_tys (iterator map) are abstract callees; a substitution's argument list is an abstract sequence and `Substitution::iter(..).last()` returns its last element (std's Iterator::last on a slice iterator); std::iter::once / Option::into_iter per their documentation",
         "V29: invariant of TyKind::Tuple(arity, substitution): exactly `arity` arguments, all of them types (precondition; the code unwraps)",
+        "V29: RustIrDatabase::adt_datum (neighbourhood API, not called by the pinned text) returns an uninterpreted datum per ADT id; AdtDatum / AdtFlags / AdtKind are the extracted definitions, AdtDatumBound is opaque",
         "V29: a change that filters the iterator with an adaptor (Option::filter, Iterator::filter) makes the unit UNDECIDED, not a violation",
     ],
     "trusted": ["chalk-ir Substitution (abstract)", "builtin_traits::{last_field_of_struct, needs_impl_for_tys}"],
